@@ -190,6 +190,21 @@ CORPUS = [
      "has_rest": False},
     {"fields": [(0, "a", True, 50), (1, "b_c", True, 51)],
      "stack": [{"map": {"a": DOTS, "b_c": "k2"}, "map_spelling": "pairs", "name_style": "UPPER"}], "has_rest": False},
+    # an explicit name_style=None / trim=False / as_list=False in the EARLIER provider beats whatever a later one sets
+    {"fields": [(0, "user_name", True, 50), (1, "b_c", False, 51)],
+     "stack": [{"name_style": None}, {"name_style": "CAMEL"}], "has_rest": False},
+    {"fields": [(0, "user_name", True, 50), (1, "b_c", True, 51)],
+     "stack": [{"name_style": None, "map": {"b_c": ("n", DOTS)}}, {"name_style": "UPPER_DOT", "map": {"user_name": ("n", DOTS)}}], "has_rest": False},
+    {"fields": [(0, "a_", True, 50), (1, "b_c", True, 51)],
+     "stack": [{"trim_trailing_underscore": False, "as_list": False}, {"trim_trailing_underscore": True, "as_list": True, "name_style": "PASCAL"}],
+     "has_rest": False},
+    # fields left out by skip / only / map -> None next to the policies for unknown keys
+    {"fields": [(0, "a", True, 50), (1, "level", False, 51), (2, "q", False, 52)],
+     "stack": [{"skip": ["level"], "extra_in": "forbid"}], "has_rest": False},
+    {"fields": [(0, "a", True, 50), (1, "level", False, 51), (2, "q", False, 52)],
+     "stack": [{"only": ["a", "q"], "extra_in": "rest", "extra_out": "rest"}], "has_rest": True},
+    {"fields": [(0, "a", True, 50), (1, "level", False, 51)],
+     "stack": [{"map": {"level": None}, "extra_in": "saturate"}], "has_rest": False},
     {"fields": [(0, "a", True, 50), (1, "b_c", False, 51)],
      "stack": [{"map": {"a": ("m", "k1"), "b_c": ("m", "k2")}, "map_spelling": "dicts", "omit_default": True}], "has_rest": False},
 ]
@@ -581,6 +596,19 @@ def inputs_for(prog, paths, r, tier):
             d = copy.deepcopy(perfect)
             get_at(d, cp).append(77)
             out.append(("well", d))
+        if not cp and isinstance(node, dict):
+            # an unknown key spelled exactly like a field the layout leaves out (skip / only / map -> None): nothing maps to
+            # it, so it is as unknown as any other key
+            left_out = [n for i, n, req, d in prog["fields"] if not paths.get(n) and n not in node]
+            if left_out:
+                d = copy.deepcopy(perfect)
+                for n in left_out:
+                    d[n] = r.choice([9, "e"])
+                out.append(("well", d))
+                d = copy.deepcopy(perfect)
+                d[left_out[0]] = 9
+                d["zz"] = 1
+                out.append(("well", d))
         if cp:
             out.append(("well", del_at(perfect, cp)))
             out.append(("well", set_at(perfect, cp, {} if isinstance(node, dict) else [])))
